@@ -41,7 +41,7 @@ func init() {
 	reg.Register(runner.Check{
 		ID:    "C15",
 		Level: "model_checking",
-		Rule: "stateless exploration (<=Ds scheduling deviations per scenario; a deviation is a switch to another goroutine at a synchronisation point or, in the two-session and write-then-close scenarios and in every schedule scenario of the thorough tier, a goroutine held up for 20 ms / 2 s before an atomic write) of close/stop scenarios on the real client and server, TCP and UDP: blocked reader at each end (one or two sessions on the client; the second session must keep working) x closer {client conn, server conn, both, client Stop, server Stop, network loss then Close} x idle period before the close {0, 3 s, 7 s, 70 s}; blocked writer under back-pressure x closer; repeated Close; write then Close without any Read (0-RTT client, and server); UDP one-way black hole until the sender's retransmission limit; deadline scripts (deadline then several Reads / Writes, deadline moved, cleared, in the past) at both ends; " +
+		Rule: "stateless exploration (<=Ds scheduling deviations per scenario; a deviation is a switch to another goroutine at a synchronisation point or, in the two-session and write-then-close scenarios and in every schedule scenario of the thorough tier, a goroutine held up for 20 ms / 2 s before an atomic write) of close/stop scenarios on the real client and server, TCP and UDP: blocked reader at each end (one or two sessions on the client; the second session must keep working) x closer {client conn, server conn, both, client Stop, server Stop, network loss then Close} x idle period before the close {0, 3 s, 7 s, 70 s}; blocked writer under back-pressure x closer; 24 idle proxy connections of one client then Stop at either end; repeated Close; write then Close without any Read (0-RTT client, and server); UDP one-way black hole until the sender's retransmission limit; deadline scripts (deadline then several Reads / Writes, deadline moved, cleared, in the past) at both ends; " +
 			"oracles: every call returns; a call blocked when the closer acted returns within 20 s of it; Close/Stop return within 20 s; a Read/Write that cannot complete returns a timeout no later than 1 s after the deadline in force; 30 s after both ends were shut down no goroutine started by mieru is alive. evaluations = executions",
 		Assumptions: []string{
 			"'promptly (seconds, not the idle-read timeout)' is judged as <= 20 s of virtual time; the idle-read timeouts are 60-120 s",
@@ -316,6 +316,8 @@ func run1(p params, ctl *explore.Ctl) explore.Result {
 			blockedWriter(r, p, cc, sc)
 		case "two-sessions":
 			twoSessions(r, p, cc, sc)
+		case "many-sessions":
+			manySessions(r, p, cc, sc)
 		case "one-way-blackhole":
 			oneWayBlackhole(r, p, cc, sc)
 		case "deadlines-client":
@@ -625,6 +627,34 @@ func twoSessions(r *run, p params, cc, sc net.Conn) {
 	r.do("Close(other server conn)", func() (int, error) { return 0, sc2.Close() }).within = prompt
 }
 
+// manySessions: 24 idle proxy connections of one client (they share underlays); one reader
+// blocked at each end of the first; then the closer acts: Stop must not take a time that
+// grows with the number of connections beyond "promptly", and every blocked call is released.
+func manySessions(r *run, p params, cc, sc net.Conn) {
+	var conns []net.Conn
+	for k := 1; k < 24; k++ {
+		c2, s2, err := pair(r.w, 1000+k)
+		if err != nil {
+			r.v.Add("setup", "session %d: %v", k, err)
+			return
+		}
+		conns = append(conns, c2, s2)
+	}
+	var at int64
+	var g world.Group
+	buf1, buf2 := make([]byte, 16), make([]byte, 16)
+	r.bg(&g, "Read(client conn, blocked)", "client", func(c *call) { c.releasedBy = &at }, func() (int, error) { return cc.Read(buf1) })
+	r.bg(&g, "Read(server conn, blocked)", "server", func(c *call) { c.releasedBy = &at }, func() (int, error) { return sc.Read(buf2) })
+	last := conns[len(conns)-1]
+	r.bg(&g, "Read(last server conn, blocked)", "server", func(c *call) { c.releasedBy = &at }, func() (int, error) { return last.Read(make([]byte, 16)) })
+	vsched.Sleep(500 * time.Millisecond)
+	closer(r, p, cc, sc, &at)
+	g.Wait()
+	for _, c := range conns {
+		c.Close()
+	}
+}
+
 // deadlines: a deadline bounds every later Read until it is changed.
 func deadlines(r *run, p params, a, b net.Conn, side string) {
 	buf := make([]byte, 64)
@@ -755,6 +785,9 @@ func units(tier string) []runner.Unit {
 			if !udp || tier == "thorough" {
 				add(params{UDP: udp, Kind: "two-sessions", Closer: cl, Ds: 1, Stalls: true}, 20)
 			}
+		}
+		for _, cl := range []string{"client-stop", "server-stop"} {
+			add(params{UDP: udp, Kind: "many-sessions", Closer: cl}, 3)
 		}
 		for _, side := range []string{"client", "server"} {
 			for _, sc := range []string{"two-reads-no-data", "data-then-silence", "deadline-moved", "deadline-in-the-past", "set-deadline-both", "cleared"} {
